@@ -20,7 +20,8 @@ def _corpus(mod):
     for p in sorted(glob.glob(os.path.join(d, "*.json"))):
         try:
             desc = json.load(open(p))
-            desc = desc.get("case", desc)
+            if isinstance(desc.get("case"), dict):
+                desc = desc["case"]
             c = mod.rebuild(desc)
             c.kind = "corpus:" + (c.kind or "")
             out.append(c)
@@ -61,7 +62,7 @@ def run_property(modname: str, tier: str, seed: int, replay: str | None = None) 
     elif replay:
         desc = json.load(open(replay))
         try:
-            cases = [mod.rebuild(desc.get("case", desc))]
+            cases = [mod.rebuild(desc["case"] if isinstance(desc.get("case"), dict) else desc)]
         except NotImplementedError:
             # no direct rebuild: regenerate the recorded run and pick the recorded case out of it
             rseed, rtier = int(desc.get("seed", seed)), desc.get("tier", tier)
